@@ -65,7 +65,9 @@ pub fn gen_c03(seed: u64, thorough: bool) -> Plan {
         cipher = SS_CIPHERS[(seed as usize / 7) % 7];
     }
     let n_users = if supports_eih(cipher) { n_users } else { 0 };
-    let mut config = gen_config(&mut g, proto, cipher, Transport::Tcp, if proto == Proto::Vmess { n_users } else { n_users });
+    // a third of the stream plans travel in WebSocket messages whose boundaries the reference peer chooses
+    let carrier = if !mode.starts_with("udp") && mode != "encoder" && (seed / (MODES.len() * cells.len()) as u64) % 3 == 1 { Transport::Ws } else { Transport::Tcp };
+    let mut config = gen_config(&mut g, proto, cipher, carrier, if proto == Proto::Vmess { n_users } else { n_users });
     if mode.starts_with("udp") {
         config.client_mode = "udp".into();
         config.server_mode = "udp".into();
@@ -121,6 +123,7 @@ struct Seen {
     got_dgrams: Vec<Vec<u8>>,
     reply_dgrams: Vec<Vec<u8>>,
     notes: Vec<String>,
+    ws_messages: u64,
 }
 
 fn flow_addr(f: &TcpFlow) -> Addr {
@@ -134,6 +137,72 @@ fn flow_addr(f: &TcpFlow) -> Addr {
             }
         }
         (_, Some(n)) => Addr::Name(n.as_bytes().to_vec(), f.target_port),
+    }
+}
+
+/// The reference peer's end of the carrier: the plain byte stream, or a WebSocket connection (third-party tokio-websockets on
+/// the harness side) whose *message* boundaries are chosen here, independently of the carried protocol's frames - as another
+/// implementation is free to do (v2ray writes one message per 8 KiB buffer).
+enum Pipe {
+    Tcp(TcpStream),
+    Ws(tokio_websockets::WebSocketStream<TcpStream>, u64, u64),
+}
+
+impl Pipe {
+    /// `first_min`: bytes that have to travel in the first message (the Shadowsocks 2022 first flight, which the properties exempt)
+    async fn send(&mut self, data: &[u8], g: &mut Gen, first_min: usize) -> bool {
+        use futures::SinkExt;
+        match self {
+            Pipe::Tcp(s) => s.write_all(data).await.is_ok(),
+            Pipe::Ws(w, style, sent) => {
+                let mut at = 0;
+                while at < data.len() {
+                    let mut n = match *style {
+                        0 => data.len(),
+                        1 => 8192,
+                        2 => g.range(1, 40) as usize,
+                        3 => g.range(1, 3000) as usize,
+                        _ => *g.pick(&[1usize, 2, 15, 16, 17, 18, 33, 34, 50, 100, 1000]),
+                    };
+                    if at == 0 {
+                        n = n.max(first_min);
+                    }
+                    let end = (at + n).min(data.len());
+                    if w.send(tokio_websockets::Message::binary(bytes::Bytes::copy_from_slice(&data[at..end]))).await.is_err() {
+                        return false;
+                    }
+                    *sent += 1;
+                    at = end;
+                }
+                true
+            }
+        }
+    }
+
+    fn messages_sent(&self) -> u64 {
+        match self {
+            Pipe::Ws(_, _, n) => *n,
+            _ => 0,
+        }
+    }
+
+    /// next piece of the byte stream; `None` = end of stream or error
+    async fn recv(&mut self, buf: &mut [u8]) -> Option<Vec<u8>> {
+        use futures::StreamExt;
+        match self {
+            Pipe::Tcp(s) => match s.read(buf).await {
+                Ok(0) | Err(_) => None,
+                Ok(n) => Some(buf[..n].to_vec()),
+            },
+            Pipe::Ws(w, _, _) => loop {
+                match w.next().await {
+                    Some(Ok(m)) if m.is_binary() || m.is_text() => return Some(m.as_payload().to_vec()),
+                    Some(Ok(m)) if m.is_close() => return None,
+                    Some(Ok(_)) => continue,
+                    _ => return None,
+                }
+            },
+        }
     }
 }
 
@@ -163,6 +232,19 @@ async fn client_to_ref(plan: &Plan, g: &mut Gen) -> Seen {
         return seen;
     };
     s.set_own_styles(0, 0);
+    let mut s = if plan.config.transport == Transport::Ws {
+        match tokio_websockets::ServerBuilder::new().accept(s).await {
+            Ok((_, w)) => Pipe::Ws(w, g.below(5), 0),
+            Err(e) => {
+                seen.ref_error = Some(format!("the client's websocket upgrade was refused by the reference side: {e}"));
+                return seen;
+            }
+        }
+    } else {
+        Pipe::Tcp(s)
+    };
+    let first_min = crate::scen_link::exempt_prefix(&plan.config, "s2c") as usize;
+    let mut sent_any = false;
     let want_up = expected_up(&f, 0);
     let want_down = expected_down(&f, 0);
     let mut buf = vec![0u8; 65536];
@@ -170,12 +252,12 @@ async fn client_to_ref(plan: &Plan, g: &mut Gen) -> Seen {
     let opts = ServerOpts::default();
     let mut idle = 0;
     loop {
-        match tokio::time::timeout(Duration::from_millis(500), s.read(&mut buf)).await {
-            Ok(Ok(0)) | Ok(Err(_)) => break,
-            Ok(Ok(n)) => {
+        match tokio::time::timeout(Duration::from_millis(500), s.recv(&mut buf)).await {
+            Ok(None) => break,
+            Ok(Some(d)) => {
                 idle = 0;
                 srv.now = unix_now();
-                if let Err(e) = srv.feed(&buf[..n]) {
+                if let Err(e) = srv.feed(&d) {
                     seen.ref_error = Some(e);
                     break;
                 }
@@ -190,9 +272,10 @@ async fn client_to_ref(plan: &Plan, g: &mut Gen) -> Seen {
                     let data = &want_down[off..off + n];
                     off += n;
                     if let Some(w) = srv.write(g, data, &opts) {
-                        if s.write_all(&w).await.is_err() {
+                        if !s.send(&w, g, if sent_any { 0 } else { first_min }).await {
                             break;
                         }
+                        sent_any = true;
                     }
                 }
             }
@@ -203,6 +286,7 @@ async fn client_to_ref(plan: &Plan, g: &mut Gen) -> Seen {
         }
     }
     seen.ref_addr = srv.addr.clone();
+    seen.ws_messages = s.messages_sent();
     seen.ref_payload = srv.payload.clone();
     seen.chunk_lens = srv.sender_chunk_lens();
     let o = obs.lock().unwrap();
@@ -245,24 +329,36 @@ async fn ref_to_server(plan: &Plan, g: &mut Gen) -> Seen {
     let mut off = 0;
     let first = &want_up[..writes[0]];
     off += writes[0];
+    let mut s = if plan.config.transport == Transport::Ws {
+        let b = tokio_websockets::ClientBuilder::new().uri("ws://sim.test/ws").expect("uri");
+        match b.connect_on(s).await {
+            Ok((w, _)) => Pipe::Ws(w, g.below(5), 0),
+            Err(e) => {
+                seen.ref_error = Some(format!("the server refused a websocket upgrade: {e}"));
+                return seen;
+            }
+        }
+    } else {
+        Pipe::Tcp(s)
+    };
     let (mut cl, wire) = RefClient::start(&c, g, unix_now(), &addr, first, &opts);
-    let _ = s.write_all(&wire).await;
+    let _ = s.send(&wire, g, crate::scen_link::exempt_prefix(&plan.config, "c2s") as usize).await;
     for n in writes.iter().skip(1) {
         tokio::time::sleep(Duration::from_millis(5)).await;
         let w = cl.write(&want_up[off..off + n]);
         off += n;
-        if s.write_all(&w).await.is_err() {
+        if !s.send(&w, g, 0).await {
             break;
         }
     }
     let mut buf = vec![0u8; 65536];
     let mut idle = 0;
     loop {
-        match tokio::time::timeout(Duration::from_millis(500), s.read(&mut buf)).await {
-            Ok(Ok(0)) | Ok(Err(_)) => break,
-            Ok(Ok(n)) => {
+        match tokio::time::timeout(Duration::from_millis(500), s.recv(&mut buf)).await {
+            Ok(None) => break,
+            Ok(Some(d)) => {
                 idle = 0;
-                if let Err(e) = cl.feed(&buf[..n]) {
+                if let Err(e) = cl.feed(&d) {
                     seen.ref_error = Some(e);
                     break;
                 }
@@ -274,6 +370,7 @@ async fn ref_to_server(plan: &Plan, g: &mut Gen) -> Seen {
         }
     }
     seen.ref_payload = cl.payload.clone();
+    seen.ws_messages = s.messages_sent();
     seen.chunk_lens = cl.sender_chunk_lens();
     seen.target_recv = obs.lock().unwrap().target.recv.clone();
     seen.dials = world::with(|w| w.connects.iter().filter(|c| c.node == rt::NODE_SERVER).map(|c| c.dst).collect());
@@ -736,6 +833,7 @@ pub fn execute_c03(plan: &Plan) -> Outcome {
     probes.insert("chunks_parsed_by_reference".to_owned(), seen.chunk_lens.len() as u64);
     probes.insert("chunks_over_16383".to_owned(), seen.chunk_lens.iter().filter(|l| **l > 0x3FFF).count() as u64);
     probes.insert("datagrams_opened_by_reference".to_owned(), seen.ref_dgrams.len() as u64);
+    probes.insert("websocket_messages_cut_by_reference".to_owned(), seen.ws_messages);
     Outcome {
         violations: v,
         ev_hash: out.world.ev_hash,
